@@ -89,6 +89,25 @@ namespace MEDDLY {
         protected:
             void _compute(node_handle A, oper_item &result);
 
+            /// Range of the edge to A as seen from level L.
+            /// In an identity-reduced forest, a skipped primed level
+            /// (of a variable with more than one value) means the
+            /// function is zero off the diagonal.
+            inline void _computeEdge(int L, node_handle A, oper_item &result)
+            {
+                _compute(A, result);
+                if (!argF->isIdentityReduced()) return;
+                const int Alevel = argF->getNodeLevel(A);
+                for (int k=L; k != Alevel; k = MXD_levels::downLevel(k)) {
+                    if (k<0 && argF->getLevelSize(k) > 1) {
+                        oper_item zero(RTYPE::getOpndType());
+                        RTYPE::initItem(zero, 0);
+                        RTYPE::updateItem(result, zero);
+                        return;
+                    }
+                }
+            }
+
         private:
             ct_entry_type* ct;
 #ifdef TRACE
@@ -126,7 +145,7 @@ void MEDDLY::range_templ<RTYPE>::compute(int L, unsigned in,
 #ifdef TRACE
     out.indentation(0);
 #endif
-    _compute(ap, result);
+    _computeEdge(L, ap, result);
 }
 
 template <class RTYPE>
@@ -156,10 +175,13 @@ void MEDDLY::range_templ<RTYPE>::_compute(node_handle A, oper_item &r)
     //
     // Full storage: transparent (zero) children are values of the function
     unpacked_node* Au = unpacked_node::newFromNode(argF, A, FULL_ONLY);
-    _compute(Au->down(0), r);
+    const int nextL = argF->isForRelations()
+        ? MXD_levels::downLevel(Au->getLevel())
+        : MDD_levels::downLevel(Au->getLevel());
+    _computeEdge(nextL, Au->down(0), r);
     oper_item tmp(RTYPE::getOpndType());
     for (unsigned i=1; i<Au->getSize(); i++) {
-        _compute(Au->down(i), tmp);
+        _computeEdge(nextL, Au->down(i), tmp);
         RTYPE::updateItem(r, tmp);
     }
 
